@@ -77,15 +77,17 @@ def hand_expand(lines, args_env):
                 else: res.append(("g", [ev(a) for a in t[1]]))
             return res
         toks = ev(ln[1])
-        def expand(toks):
-            res = [""]
-            for t in toks:
-                if t[0] == "t": res = [r + t[1] for r in res]
-                else:
-                    alts = [x for a in t[1] for x in expand(a)] if t[1] else [""]
-                    res = [r + a for r in res for a in alts]
-            return res
-        for l in expand(toks):
+        # the file one would write by hand has the values in place; its brace groups are then read off the TEXT
+        # (a value may itself bring commas into a group): one line per alternative, leftmost group slowest
+        def flat(toks):
+            return "".join(t[1] if t[0] == "t" else "{" + ",".join(flat(a) for a in t[1]) + "}" for t in toks)
+        def expand_text(line):
+            pieces = re.split(r"\{([^{}]*)\}", line)          # text, group, text, group, ..., text
+            res = [pieces[0]]
+            for k in range(1, len(pieces), 2):
+                res = [r + a + pieces[k + 1] for r in res for a in pieces[k].split(",")]
+            return [r for r in res] if not any("{" in r and "}" in r and re.search(r"\{[^{}]*\}", r) for r in res) else [x for r in res for x in expand_text(r)]
+        for l in expand_text(flat(toks)):
             if l.strip(): out += l + "\n"
     return out
 
@@ -109,7 +111,7 @@ def gen_template(rng, compile_level):
     use_tag = compile_level and rng.random() < 0.3
     if use_tag:
         # a text-valued argument (the command line passes words through unchanged), used only inside a name
-        params.append("tag"); args.append(rng.choice(["07", "7", "00", "a1", "012", "x"]))
+        params.append("tag"); args.append(rng.choice(["07", "7", "00", "a1", "012", "x", "a1,b2", "u,v,w"]))
     lines = []
     if compile_level:
         lines.append(("line", [("t", "declare component T%s: x -> x" % ("(%s)" % ", ".join(params) if params else ""))]))
@@ -133,7 +135,8 @@ def gen_template(rng, compile_level):
                 lines.append(("length", rng.choice(["tot", "k3"]), gen_expr(rng, names)))
                 if lines[-1][1] not in names: names.append(lines[-1][1])
         if use_tag:
-            lines.append(("line", [("t", "sequence q_"), ("e", ["v", "tag"]), ("t", ' = "2N" x')]))
+            # inside a brace group: a value with commas makes one line per word, as in the hand-written file
+            lines.append(("line", [("t", "sequence q_"), ("g", [[("e", ["v", "tag"])]]) if rng.random() < 0.6 or "," in args[-1] else ("e", ["v", "tag"]), ("t", ' = "2N" x')]))
         lines.append(("line", [("t", 'strand Z = x "2A"')]))
         lines.append(("line", [("t", "structure W = Z : "), ("t", "U"), ("e", ["+", ["n", 2], ["n", 0]]), ("t", " U"), ("e", ["v", "__lenx"])]))
     else:
